@@ -1,9 +1,658 @@
-//! group `name` — stub (not built yet).
-#![allow(unused)]
+//! group `name` — C16: src/name/{mod,label,builder,lowercase}.rs through the public
+//! `Name` / `Label` / `NameBuilder` / `LowercaseName` API.  See lean/QV/Driver/Name.lean for the
+//! list of ops and result formats.
 use crate::common::*;
+use quandary::name::{Label, LowercaseName, Name, NameBuilder};
+use std::cmp::Ordering;
+use std::hash::{Hash, Hasher};
 
-pub fn run(_op: &str, _a: &[&str]) -> Option<String> {
-    None
+/// records the octets a `Hash` impl feeds to the hasher (hash *inputs* are compared, never values)
+struct Recorder(Vec<u8>);
+impl Hasher for Recorder {
+    fn finish(&self) -> u64 {
+        0
+    }
+    fn write(&mut self, bytes: &[u8]) {
+        self.0.extend_from_slice(bytes);
+    }
 }
 
-pub fn gen(_rng: &mut Rng, _thorough: bool, _em: &mut Emitter) {}
+fn ord(o: Ordering) -> &'static str {
+    match o {
+        Ordering::Less => "lt",
+        Ordering::Equal => "eq",
+        Ordering::Greater => "gt",
+    }
+}
+
+fn rev(o: Ordering) -> Ordering {
+    o.reverse()
+}
+
+fn b01(b: bool) -> &'static str {
+    if b {
+        "1"
+    } else {
+        "0"
+    }
+}
+
+fn name_of(h: &str) -> Result<Box<Name>, String> {
+    let Some(w) = unhex(h) else { return Err("bad-op".into()) };
+    Name::try_from_uncompressed_all(&w).map_err(|e| format!("err:{:?}", e))
+}
+
+macro_rules! name {
+    ($h:expr) => {
+        match name_of($h) {
+            Ok(n) => n,
+            Err(e) => return Some(e),
+        }
+    };
+}
+
+fn law_flags(ab: Ordering, bc: Ordering, ac: Ordering, ba: Ordering) -> String {
+    let anti = ab == rev(ba);
+    let trans = !((ab != Ordering::Greater && bc != Ordering::Greater && ac == Ordering::Greater)
+        || (ab == Ordering::Less && bc == Ordering::Less && ac != Ordering::Less));
+    format!("{} {} {} {} {} {}", ord(ab), ord(bc), ord(ac), ord(ba), b01(anti), b01(trans))
+}
+
+fn run_script(script: &str) -> String {
+    let mut b = NameBuilder::new();
+    let mut outs: Vec<String> = Vec::new();
+    let unit = |r: Result<(), quandary::name::Error>| match r {
+        Ok(()) => "ok".to_string(),
+        Err(e) => format!("err:{:?}", e),
+    };
+    let built = |r: Result<Box<Name>, quandary::name::Error>| match r {
+        Ok(n) => format!("ok {} {}", hex(n.wire_repr()), n.len()),
+        Err(e) => format!("err:{:?}", e),
+    };
+    for step in script.split(';') {
+        if let Some(h) = step.strip_prefix('p') {
+            let Some(o) = unhex(h).filter(|v| v.len() == 1) else { return "bad-op".into() };
+            outs.push(unit(b.try_push(o[0])));
+        } else if let Some(h) = step.strip_prefix('s') {
+            let Some(os) = unhex(h) else { return "bad-op".into() };
+            outs.push(unit(b.try_push_slice(&os)));
+        } else if step == "n" {
+            outs.push(unit(b.next_label()));
+        } else if step == "q" {
+            outs.push(b01(b.is_fully_qualified()).to_string());
+        } else if step == "f" {
+            outs.push(built(b.finish()));
+            return outs.join(";");
+        } else if let Some(h) = step.strip_prefix('x') {
+            let Some(w) = unhex(h) else { return "bad-op".into() };
+            let Ok(sfx) = Name::try_from_uncompressed_all(&w) else { return "bad-op".into() };
+            outs.push(built(b.finish_with_suffix(&sfx)));
+            return outs.join(";");
+        } else {
+            return "bad-op".into();
+        }
+    }
+    outs.join(";")
+}
+
+pub fn run(op: &str, a: &[&str]) -> Option<String> {
+    let bad = || Some("bad-op".to_string());
+    Some(match (op, a) {
+        ("npres", [w, t]) => {
+            let Some(text) = unhex(t) else { return bad() };
+            let n = name!(w);
+            guarded(move || {
+                let s = n.to_string();
+                if s.as_bytes() == &text[..] {
+                    "ok".into()
+                } else {
+                    format!("differs:{}", hex(s.as_bytes()))
+                }
+            })
+        }
+        ("np", [t]) => {
+            let Some(bytes) = unhex(t) else { return bad() };
+            let Ok(text) = String::from_utf8(bytes) else { return bad() };
+            guarded(move || match text.parse::<Box<Name>>() {
+                Ok(n) => format!("ok {} {}", hex(n.wire_repr()), n.len()),
+                Err(e) => format!("err:{:?}", e),
+            })
+        }
+        ("nrt", [w]) => {
+            let n = name!(w);
+            guarded(move || match n.to_string().parse::<Box<Name>>() {
+                Ok(m) => format!("ok {}", hex(m.wire_repr())),
+                Err(e) => format!("err:{:?}", e),
+            })
+        }
+        ("neq", [x, y]) => {
+            let (x, y) = (name!(x), name!(y));
+            guarded(move || format!("ok {}", b01(x == y)))
+        }
+        ("ncmp", [x, y]) => {
+            let (x, y) = (name!(x), name!(y));
+            guarded(move || format!("ok {}", ord(x.cmp(&y))))
+        }
+        ("ncmp3", [x, y, z]) => {
+            let (x, y, z) = (name!(x), name!(y), name!(z));
+            guarded(move || format!("ok {}", law_flags(x.cmp(&y), y.cmp(&z), x.cmp(&z), y.cmp(&x))))
+        }
+        ("nhash", [x]) => {
+            let x = name!(x);
+            guarded(move || {
+                let mut r = Recorder(Vec::new());
+                x.hash(&mut r);
+                format!("ok {}", hex(&r.0))
+            })
+        }
+        ("nsub", [x, y]) => {
+            let (x, y) = (name!(x), name!(y));
+            guarded(move || format!("ok {}", b01(x.eq_or_subdomain_of(&y))))
+        }
+        ("nsup", [x, k]) => {
+            let Ok(k) = k.parse::<usize>() else { return bad() };
+            let x = name!(x);
+            guarded(move || match x.superdomain(k) {
+                Some(s) => format!("ok {}", hex(s.wire_repr())),
+                None => "none".into(),
+            })
+        }
+        ("nlab", [x]) => {
+            let x = name!(x);
+            guarded(move || {
+                let labels: Vec<String> = x.labels().map(|l| hex(l.octets())).collect();
+                format!("ok {} {} {} {}", x.len(), b01(x.is_root()), b01(x.is_wildcard()), labels.join(","))
+            })
+        }
+        ("nlow", [x]) => {
+            let x = name!(x);
+            guarded(move || {
+                let l: Box<LowercaseName> = x.into();
+                format!("ok {}", hex(l.wire_repr()))
+            })
+        }
+        ("nwr", [x, k]) => {
+            let Ok(k) = k.parse::<usize>() else { return bad() };
+            let x = name!(x);
+            guarded(move || format!("ok {} {}", hex(x.wire_repr_to(k)), hex(x.wire_repr_from(k))))
+        }
+        ("nidx", [x, i]) => {
+            let Ok(i) = i.parse::<usize>() else { return bad() };
+            let x = name!(x);
+            guarded(move || format!("ok {}", hex(x[i].octets())))
+        }
+        ("lcmp", [x, y]) => {
+            let (Some(x), Some(y)) = (unhex(x), unhex(y)) else { return bad() };
+            guarded(move || {
+                let (lx, ly) = match (<&Label>::try_from(&x[..]), <&Label>::try_from(&y[..])) {
+                    (Ok(a), Ok(b)) => (a, b),
+                    (Err(e), _) | (_, Err(e)) => return format!("err:{:?}", e),
+                };
+                format!("ok {} {}", ord(lx.cmp(ly)), b01(lx == ly))
+            })
+        }
+        ("lhash", [x]) => {
+            let Some(x) = unhex(x) else { return bad() };
+            guarded(move || match <&Label>::try_from(&x[..]) {
+                Ok(l) => {
+                    let mut r = Recorder(Vec::new());
+                    l.hash(&mut r);
+                    format!("ok {}", hex(&r.0))
+                }
+                Err(e) => format!("err:{:?}", e),
+            })
+        }
+        ("nb", [script]) => {
+            let s = script.to_string();
+            guarded(move || {
+                let r = run_script(&s);
+                if r == "bad-op" { r } else { format!("ok {}", r) }
+            })
+        }
+        _ => return None,
+    })
+}
+
+// ---------------------------------------------------------------------------------------------
+// generators
+// ---------------------------------------------------------------------------------------------
+
+fn emit(em: &mut Emitter, case: String) {
+    let mut it = case.split(' ');
+    let op = it.next().unwrap();
+    let args: Vec<&str> = it.collect();
+    let r = run(op, &args).unwrap();
+    em.emit(&case, &r);
+}
+
+/// one label octet; emphasis on the octets the text form treats specially
+fn octet(rng: &mut Rng) -> u8 {
+    match rng.below(16) {
+        0 => b'.',
+        1 => b'\\',
+        2 => b' ',
+        3 => b'*',
+        4 => b'0' + rng.below(10) as u8,
+        5 | 6 => b'A' + rng.below(26) as u8,
+        7 | 8 | 9 => b'a' + rng.below(26) as u8,
+        10 => 0x7f,
+        11 => 0x80 + rng.below(128) as u8,
+        12 => *rng.pick(&[0u8, 1, 0x1f, 0x20, 0x21, 0x2d, 0x2e, 0x2f, 0x40, 0x41, 0x5a, 0x5b, 0x5c, 0x5d, 0x60, 0x61, 0x7a, 0x7b, 0x7e, 0x7f, 0x80, 0xc0, 0xdf, 0xff]),
+        13 => b'-',
+        _ => rng.byte(),
+    }
+}
+
+fn label(rng: &mut Rng, len: usize) -> Vec<u8> {
+    (0..len).map(|_| octet(rng)).collect()
+}
+
+fn label_len(rng: &mut Rng) -> usize {
+    match rng.below(20) {
+        0 => 63,
+        1 => 62,
+        2 => 1,
+        3..=5 => rng.range(1, 63),
+        _ => rng.range(1, 9),
+    }
+}
+
+fn wire_of(labels: &[Vec<u8>]) -> Vec<u8> {
+    let mut w = Vec::new();
+    for l in labels {
+        w.push(l.len() as u8);
+        w.extend_from_slice(l);
+    }
+    w.push(0);
+    w
+}
+
+/// labels of a random valid name (wire length <= 255); several styles
+fn name_labels(rng: &mut Rng) -> Vec<Vec<u8>> {
+    let style = rng.below(16);
+    let mut labels: Vec<Vec<u8>> = Vec::new();
+    let mut total = 1usize;
+    match style {
+        0 => {}                                    // root
+        1 => {
+            // as many one-octet labels as fit: 127 labels, 255 octets (or one fewer)
+            let n = if rng.chance(1, 2) { 127 } else { rng.range(120, 127) };
+            for _ in 0..n {
+                labels.push(label(rng, 1));
+            }
+        }
+        2 => {
+            // exactly 255 or 254 octets with long labels: 63+63+63+61 (+4 length octets +1) = 255
+            let last = if rng.chance(1, 2) { 61 } else { 60 };
+            for len in [63, 63, 63, last] {
+                labels.push(label(rng, len));
+            }
+        }
+        3 => {
+            // fill up to a random target near the limit
+            let target = rng.range(250, 255);
+            while total < target {
+                let room = target - total;
+                if room < 2 {
+                    break;
+                }
+                let len = label_len(rng).min(room - 1).min(63);
+                labels.push(label(rng, len));
+                total += len + 1;
+            }
+        }
+        4 => {
+            labels.push(vec![b'*']);
+            for _ in 0..rng.below(4) {
+                let len = label_len(rng).min(20);
+                labels.push(label(rng, len));
+            }
+        }
+        _ => {
+            let n = rng.range(1, 6);
+            for _ in 0..n {
+                let len = label_len(rng);
+                if total + len + 1 > 255 {
+                    break;
+                }
+                total += len + 1;
+                labels.push(label(rng, len));
+            }
+        }
+    }
+    labels
+}
+
+fn flip_case(rng: &mut Rng, l: &[u8]) -> Vec<u8> {
+    l.iter()
+        .map(|&b| if b.is_ascii_alphabetic() && rng.chance(1, 2) { b ^ 0x20 } else { b })
+        .collect()
+}
+
+/// a relative of `base`: same up to case, differing in one octet, sub/superdomain, sibling …
+fn relative(rng: &mut Rng, base: &[Vec<u8>]) -> Vec<Vec<u8>> {
+    let mut n: Vec<Vec<u8>> = base.to_vec();
+    match rng.below(10) {
+        0 | 1 => n = n.iter().map(|l| flip_case(rng, l)).collect(),
+        2 => {
+            if !n.is_empty() {
+                let i = rng.below(n.len());
+                let j = rng.below(n[i].len());
+                n[i][j] = match rng.below(4) {
+                    0 => n[i][j] ^ 0x20,               // case bit: equal only for letters
+                    1 => n[i][j].wrapping_add(1),
+                    2 => n[i][j] ^ 0x80,
+                    _ => octet(rng),
+                };
+            }
+        }
+        3 => {
+            // subdomain: prepend labels
+            for _ in 0..rng.range(1, 2) {
+                let len = rng.range(1, 4);
+                n.insert(0, label(rng, len));
+            }
+            n = n.iter().map(|l| flip_case(rng, l)).collect();
+        }
+        4 => {
+            if !n.is_empty() {
+                let k = rng.range(1, n.len());
+                n.drain(0..k);                       // superdomain
+            }
+        }
+        5 => {
+            if !n.is_empty() {
+                let i = rng.below(n.len());
+                if rng.chance(1, 2) && n[i].len() > 1 {
+                    n[i].pop();                      // proper prefix of a label
+                } else if n[i].len() < 63 {
+                    let extra = if rng.chance(1, 2) { 0 } else { octet(rng) };
+                    n[i].push(extra);                // … or an extension (with octet 0: "absence sorts first")
+                }
+            }
+        }
+        6 => {
+            if !n.is_empty() {
+                let i = rng.below(n.len());
+                n.remove(i);
+            }
+        }
+        7 => {
+            if n.len() >= 2 {
+                let i = rng.below(n.len() - 1);
+                n.swap(i, i + 1);
+            }
+        }
+        8 => {
+            // same suffix, different first labels
+            let keep = rng.below(n.len() + 1);
+            let mut m: Vec<Vec<u8>> = Vec::new();
+            for _ in 0..rng.below(3) {
+                let len = rng.range(1, 5);
+                m.push(label(rng, len));
+            }
+            m.extend_from_slice(&n[n.len() - keep..]);
+            n = m;
+        }
+        _ => n = name_labels(rng),
+    }
+    // keep it valid
+    while wire_of(&n).len() > 255 {
+        n.remove(0);
+    }
+    n
+}
+
+fn emit_single(em: &mut Emitter, rng: &mut Rng, labels: &[Vec<u8>]) {
+    let w = wire_of(labels);
+    let h = hex(&w);
+    if let Ok(n) = Name::try_from_uncompressed_all(&w) {
+        let text = n.to_string();
+        emit(em, format!("npres {} {}", h, hex(text.as_bytes())));
+    }
+    emit(em, format!("nrt {}", h));
+    emit(em, format!("nhash {}", h));
+    emit(em, format!("nlab {}", h));
+    emit(em, format!("nlow {}", h));
+    let nl = labels.len() + 1;
+    let ks: Vec<usize> = if nl <= 6 { (0..=nl + 1).collect() } else { vec![0, 1, rng.below(nl), nl - 1, nl, nl + 1] };
+    for k in ks {
+        emit(em, format!("nsup {} {}", h, k));
+        emit(em, format!("nwr {} {}", h, k));
+        emit(em, format!("nidx {} {}", h, k));
+    }
+}
+
+fn emit_pair(em: &mut Emitter, a: &[Vec<u8>], b: &[Vec<u8>]) {
+    let (x, y) = (hex(&wire_of(a)), hex(&wire_of(b)));
+    for (p, q) in [(&x, &y), (&y, &x)] {
+        emit(em, format!("neq {} {}", p, q));
+        emit(em, format!("ncmp {} {}", p, q));
+        emit(em, format!("nsub {} {}", p, q));
+    }
+}
+
+/// text of a name with randomly chosen (valid) spellings of each octet
+fn spell(rng: &mut Rng, labels: &[Vec<u8>]) -> String {
+    if labels.is_empty() {
+        return ".".into();
+    }
+    let mut s = String::new();
+    for l in labels {
+        for &b in l {
+            let plain_ok = b.is_ascii() && b != b'.' && b != b'\\';
+            match rng.below(6) {
+                0 => s.push_str(&format!("\\{:03}", b)),
+                1 if b.is_ascii() && !b.is_ascii_digit() => {
+                    s.push('\\');
+                    s.push(b as char);
+                }
+                _ if plain_ok => s.push(b as char),
+                _ => s.push_str(&format!("\\{:03}", b)),
+            }
+        }
+        s.push('.');
+    }
+    s
+}
+
+const TEXTS: [&str; 60] = [
+    "", ".", "..", "...", "a", "a.", ".a", ".a.", "a..", "a..b.", "a.b", "a.b.", "a.b..", "\\", "a\\", "a.\\", "\\.",
+    "\\..", "\\\\.", "\\\\", "\\1", "\\1.", "\\12.", "\\25", "\\25.", "\\255.", "\\256.", "\\256", "\\999.", "\\000.",
+    "\\0a1.", "\\01a.", "\\a01.", "\\1234.", "\\0010.", "\\046.", "\\092.", "\\.\\..", "*.", "*.a.", "\\*.a.", "\\042.a.",
+    " .", "a b.", "a\tb.", "a\nb.", "\u{e9}.", "\\\u{e9}.", "a\u{e9}.", "a.\u{20ac}.", "\u{1f600}.", "\\\u{1f600}.", "\u{80}.",
+    "A.b.C.", "-._.", "a.b.c.d.e.f.g.h.i.j.", "\\065.", "\\a.", "xn--bcher-kva.example.", "\\\\\\..",
+];
+
+const TEXT_ALPHABET: [&str; 28] = [
+    "\\", "\\", ".", ".", "0", "1", "2", "5", "6", "9", "a", "b", "Z", " ", "*", "-", "\\0", "\\2", "\\25", "\\255", "\\256",
+    "\\046", "\u{e9}", "\u{20ac}", "\u{7f}", "\0", "\\.", "\\\\",
+];
+
+fn script_of(rng: &mut Rng) -> String {
+    let mut steps: Vec<String> = Vec::new();
+    let style = rng.below(8);
+    let n = match style {
+        0 => rng.range(120, 140),     // many labels: 127/128 boundary, name too long
+        1 => rng.range(260, 300),     // long pushes: label too long, name too long
+        _ => rng.range(1, 40),
+    };
+    for _ in 0..n {
+        let step = match style {
+            0 => match rng.below(10) {
+                0..=4 => format!("p{:02x}", octet(rng)),
+                5..=8 => "n".to_string(),
+                _ => "q".to_string(),
+            },
+            1 => match rng.below(40) {
+                0 => "n".to_string(),
+                1 => "q".to_string(),
+                2 => { let k = rng.range(0, 8); format!("s{}", hex(&label(rng, k))) }
+                _ => format!("p{:02x}", octet(rng)),
+            },
+            2 => match rng.below(8) {
+                0..=3 => { let k = *rng.pick(&[0usize, 1, 2, 30, 31, 32, 33, 62, 63, 64, 65]); format!("s{}", hex(&label(rng, k))) }
+                4..=5 => "n".to_string(),
+                6 => "q".to_string(),
+                _ => format!("p{:02x}", octet(rng)),
+            },
+            _ => match rng.below(12) {
+                0..=5 => format!("p{:02x}", octet(rng)),
+                6..=7 => { let k = rng.range(0, 12); format!("s{}", hex(&label(rng, k))) }
+                8..=10 => "n".to_string(),
+                _ => "q".to_string(),
+            },
+        };
+        steps.push(step);
+    }
+    match rng.below(10) {
+        0..=4 => {
+            if rng.chance(2, 3) {
+                steps.push("n".into());
+            }
+            steps.push("f".into());
+        }
+        5..=8 => {
+            if rng.chance(2, 3) {
+                steps.push(format!("p{:02x}", octet(rng)));
+            }
+            let sfx = name_labels(rng);
+            steps.push(format!("x{}", hex(&wire_of(&sfx))));
+        }
+        _ => steps.push("q".into()),
+    }
+    steps.join(";")
+}
+
+pub fn gen(rng: &mut Rng, thorough: bool, em: &mut Emitter) {
+    let scale = if thorough { 25 } else { 1 };
+
+    // 1. fixed texts and boundary texts
+    for t in TEXTS {
+        emit(em, format!("np {}", hex(t.as_bytes())));
+    }
+    for len in [62usize, 63, 64, 65] {
+        emit(em, format!("np {}", hex(format!("{}.", "a".repeat(len)).as_bytes())));
+        emit(em, format!("np {}", hex(format!("{}.b.", "\\065".repeat(len)).as_bytes())));
+    }
+    for nlab in [126usize, 127, 128, 129] {
+        emit(em, format!("np {}", hex("a.".repeat(nlab).as_bytes())));
+    }
+    for last in [59usize, 60, 61, 62, 63] {
+        // 63+63+63+last octets of labels: wire 4 + 189 + last + 1 = 253..257
+        let t = format!("{0}.{0}.{0}.{1}.", "x".repeat(63), "y".repeat(last));
+        emit(em, format!("np {}", hex(t.as_bytes())));
+    }
+
+    // 2. single names: display (round trip), hash input, labels, lower-casing, super domains
+    for _ in 0..1500 * scale {
+        let labels = name_labels(rng);
+        emit_single(em, rng, &labels);
+    }
+    //    every octet value as a one-octet label and inside a label (exhaustive, both tiers)
+    for b in 0..=255u8 {
+        emit_single(em, rng, &[vec![b]]);
+        emit_single(em, rng, &[vec![b'a', b, b'Z'], vec![b]]);
+    }
+    //    a few invalid wire forms (every column must answer `err`)
+    for w in [vec![], vec![1], vec![1, b'a'], vec![0, 0], vec![64; 66], vec![0xc0, 0]] {
+        let h = hex(&w);
+        emit(em, format!("nrt {}", h));
+        emit(em, format!("nlab {}", h));
+        emit(em, format!("neq {} 00", h));
+    }
+    let mut too_long = Vec::new();
+    for _ in 0..4 {
+        too_long.push(63u8);
+        too_long.extend(std::iter::repeat(b'a').take(63));
+    }
+    too_long.push(0);
+    emit(em, format!("nrt {}", hex(&too_long)));
+
+    // 3. pairs and triples of related names: eq / cmp / subdomain; order laws
+    for _ in 0..2500 * scale {
+        let a = name_labels(rng);
+        let b = relative(rng, &a);
+        emit_pair(em, &a, &b);
+        if rng.chance(1, 2) {
+            let c = if rng.chance(1, 2) { relative(rng, &a) } else { relative(rng, &b) };
+            emit_pair(em, &b, &c);
+            let (x, y, z) = (hex(&wire_of(&a)), hex(&wire_of(&b)), hex(&wire_of(&c)));
+            emit(em, format!("ncmp3 {} {} {}", x, y, z));
+            emit(em, format!("ncmp3 {} {} {}", z, x, y));
+            emit(em, format!("ncmp3 {} {} {}", y, z, x));
+        }
+    }
+    //    labels on their own (all pairs over a small exhaustive alphabet + random)
+    let small: [&[u8]; 12] = [b"", b"a", b"A", b"b", b"aa", b"aA", b"a\0", b"Z", b"[", b"z", b"\xff", b"@"];
+    for x in small {
+        emit(em, format!("lhash {}", hex(x)));
+        for y in small {
+            emit(em, format!("lcmp {} {}", hex(x), hex(y)));
+        }
+    }
+    for _ in 0..800 * scale {
+        let n = *rng.pick(&[0usize, 1, 2, 3, 5, 62, 63, 64, 70]);
+        let a = label(rng, n);
+        let b = match rng.below(4) {
+            0 => flip_case(rng, &a),
+            1 => {
+                let mut b = a.clone();
+                if !b.is_empty() {
+                    let i = rng.below(b.len());
+                    b[i] = octet(rng);
+                }
+                b
+            }
+            2 => {
+                let mut b = a.clone();
+                b.truncate(rng.below(a.len() + 1));
+                b
+            }
+            _ => {
+                let m = rng.below(6);
+                label(rng, m)
+            }
+        };
+        emit(em, format!("lcmp {} {}", hex(&a), hex(&b)));
+        emit(em, format!("lcmp {} {}", hex(&b), hex(&a)));
+        emit(em, format!("lhash {}", hex(&a)));
+    }
+
+    // 4. texts: alternative spellings of names (must parse to the name), mutated texts, random texts
+    for _ in 0..3000 * scale {
+        let labels = name_labels(rng);
+        let mut t = spell(rng, &labels);
+        emit(em, format!("np {}", hex(t.as_bytes())));
+        // one mutation
+        let mut chars: Vec<char> = t.chars().collect();
+        if !chars.is_empty() {
+            let i = rng.below(chars.len());
+            match rng.below(5) {
+                0 => {
+                    chars.remove(i);
+                }
+                1 => chars.insert(i, *rng.pick(&['.', '\\', '0', '9', 'a', ' ', '\u{e9}', '2', '5', '6'])),
+                2 => chars[i] = *rng.pick(&['.', '\\', '0', '3', 'x', '\u{20ac}']),
+                3 => chars.truncate(i),
+                _ => chars.push(*rng.pick(&['.', '\\', 'a', '1'])),
+            }
+            t = chars.into_iter().collect();
+            emit(em, format!("np {}", hex(t.as_bytes())));
+        }
+    }
+    for _ in 0..3000 * scale {
+        let n = rng.below(12);
+        let t: String = (0..n).map(|_| *rng.pick(&TEXT_ALPHABET[..])).collect();
+        emit(em, format!("np {}", hex(t.as_bytes())));
+    }
+
+    // 5. builder scripts
+    for _ in 0..2500 * scale {
+        emit(em, format!("nb {}", script_of(rng)));
+    }
+    for s in ["f", "n", "q", "q;f", "p61;f", "p61;n;f", "p61;n;n;f", "n;p61;n;f", "s-;f", "s-;n", "p61;x00", "x00", "p61;n;x00",
+              "p61;x016102626300", "s6162;q;n;q;s63;x03777777076578616d706c6500"] {
+        emit(em, format!("nb {}", s));
+    }
+}
